@@ -10,6 +10,7 @@ pub mod c08;
 pub mod c10;
 pub mod c12;
 pub mod c13;
+pub mod c16;
 pub mod values;
 pub mod common;
 pub mod predicates;
@@ -25,6 +26,7 @@ pub fn lookup(id: &str) -> Option<Box<dyn Property + Send>> {
         "C10" => Some(Box::new(c10::C10)),
         "C12" => Some(Box::new(c12::C12)),
         "C13" => Some(Box::new(c13::C13)),
+        "C16" => Some(Box::new(c16::C16)),
         _ => None,
     }
 }
